@@ -5,6 +5,8 @@ open RlModel
 Line protocol of the C14 correspondence run (same request file as harness/src/bin/c14.rs):
 
   request : `(k <n> <expr> <arr>*)` | `(e <n> <expr> <arr>*)`       n = cardinality
+            `(ks <off> <n> <expr> <arr>*)` | `(el <off> <n> <expr> <arr>*)`  the same on arrays obtained by
+            `slice(off..off+n)` of longer arrays / below `LIMIT n OFFSET off`
   arr     : `(i16|i32|i64 <slot>*)` | `(bool <slot>*)` | `(str <slot>*)` | `(null <len>)`
   slot    : `v<raw>` (valid) | `n<raw>` (NULL, raw value still stored); raw: integer, t/f, hex
   expr    : `#i` | `null` | `b:true` | `i32:5` | `s:<hex>` | `(+ a b)` `(- a b)` `(* a b)` `(/ a b)`
@@ -187,27 +189,43 @@ def answerFold (e : KExpr) : String :=
   let ftags := if foldNullSubexprs e then ["fold:null-loses-type"] else []
   "fold=" ++ fold ++ " ;; rt=" ++ rt ++ " ;; " ++ " ".intercalate (ftags ++ tags).eraseDups
 
+/-- `ArrayExt::slice` (what `DataChunk::slice`, i.e. LIMIT / OFFSET, applies to every column):
+rebuilt with a builder from `get(i)`: validity kept, raw value under NULL = builder default. The
+kernels' representation invariant (validity bitmap word-aligned at bit 0, one bit per raw slot) is
+established by the builder; in the model an array IS its list of slots, so a sliced array is just
+this cleaned list. -/
+def sliceCol : Col → Col
+  | .null n => .null n
+  | .bool a => .bool (a.map fun s => if s.valid then s else ⟨false, false⟩)
+  | .int w a => .int w (a.map fun s => if s.valid then s else ⟨false, 0⟩)
+  | .str a => .str (a.map fun s => if s.valid then s else ⟨false, ""⟩)
+
+def answerEval (kind : String) (sliced : Bool) (n : String) (e : Sexp) (arrs : List Sexp) : String :=
+  match n.toNat?, parseExpr e, parseArrs arrs with
+  | some n, some e, some chunk0 =>
+    -- `e` requests go through the in-memory table scan, whose `VarArray::filter` rebuilds
+    -- string arrays with a builder: raw bytes under NULL do not survive (primitive arrays
+    -- keep theirs).
+    let chunk1 := if kind == "e" then chunk0.map scanCol else chunk0
+    let chunk := if sliced then chunk1.map sliceCol else chunk1
+    let (r, tags) := evalK chunk n e
+    let spec := specEval (chunk.map Col.abs) n e
+    -- reason tags of the clean single-row evaluations (why the row oracle may differ)
+    let otags := ((List.range n).map fun i => (evalK (cleanRow chunk i) 1 e).2).flatten.eraseDups
+    showOut (showCol true) r ++ " ;; " ++ showOut showSCol spec ++ " ;; " ++ " ".intercalate tags.eraseDups
+      ++ " ;; " ++ " ".intercalate otags
+  | _, _, _ => "bad-request"
+
 def answer (line : String) : String :=
   match Sexp.parse line with
   | some (.list [.atom "f", e]) =>
     match parseExpr e with
     | some e => answerFold e
     | none => "bad-request"
+  | some (.list (.atom "ks" :: .atom _off :: .atom n :: e :: arrs)) => answerEval "k" true n e arrs
+  | some (.list (.atom "el" :: .atom _off :: .atom n :: e :: arrs)) => answerEval "e" true n e arrs
   | some (.list (.atom kind :: .atom n :: e :: arrs)) =>
-    if kind != "k" && kind != "e" then "bad-request" else
-    match n.toNat?, parseExpr e, parseArrs arrs with
-    | some n, some e, some chunk0 =>
-      -- `e` requests go through the in-memory table scan, whose `VarArray::filter` rebuilds
-      -- string arrays with a builder: raw bytes under NULL do not survive (primitive arrays
-      -- keep theirs).
-      let chunk := if kind == "e" then chunk0.map scanCol else chunk0
-      let (r, tags) := evalK chunk n e
-      let spec := specEval (chunk.map Col.abs) n e
-      -- reason tags of the clean single-row evaluations (why the row oracle may differ)
-      let otags := ((List.range n).map fun i => (evalK (cleanRow chunk i) 1 e).2).flatten.eraseDups
-      showOut (showCol true) r ++ " ;; " ++ showOut showSCol spec ++ " ;; " ++ " ".intercalate tags.eraseDups
-        ++ " ;; " ++ " ".intercalate otags
-    | _, _, _ => "bad-request"
+    if kind != "k" && kind != "e" then "bad-request" else answerEval kind false n e arrs
   | _ => "bad-request"
 
 partial def loop (h : IO.FS.Stream) : IO Unit := do
